@@ -207,6 +207,7 @@ class SimpleConstraints(NdContract):
         j = Int("jp")
         a = value.args
         return [("thresholder_gets_the_estimator_and_the_dictionary", BoolVal(len(a) >= 2 and a[0] is self.est and isinstance(a[1], Abstract) and a[1].tag == "idict" and value.kw.get("prefit") is True)),
+                ("fitted_rule_scores_rows_with_the_predict_method_used_for_the_thresholds", BoolVal(value.kw.get("predict_method") is st.env["self"].fields["_predict_method"])),
                 ("i_best_in_grid", And(0 <= ib, ib < G)),
                 ("i_best_maximises_the_frequency_weighted_objective", ForAll([j], Implies(And(0 <= j, j < G), SUMY(M, j) <= SUMY(M, ib)))),
                 ("i_best_is_the_first_maximiser", ForAll([j], Implies(And(0 <= j, j < ib), SUMY(M, j) < SUMY(M, ib)))),
